@@ -187,6 +187,43 @@ def snapshot(asts):
     return out
 
 
+REFERENCE_SRC = os.path.join(os.path.dirname(os.path.abspath(__file__)), "reference_src.json.gz")
+_SRC_CACHE = []
+
+
+def snapshot_sources(asts):
+    """relpath -> unit key -> source text of every function / method of the reference tree (ast.unparse)"""
+    out = {}
+    for rel, mod in asts.items():
+        units = {}
+        for k, node in _units(mod).items():
+            if k[0] in ("meth", "fn"):
+                units["|".join(k)] = ast.unparse(node)
+        out[rel] = units
+    return out
+
+
+def load_reference_sources():
+    if not _SRC_CACHE:
+        if not os.path.exists(REFERENCE_SRC):
+            _SRC_CACHE.append({})
+        else:
+            with gzip.open(REFERENCE_SRC, "rt", encoding="utf-8") as fh:
+                _SRC_CACHE.append(json.load(fh))
+    return _SRC_CACHE[0]
+
+
+def reference_function(rel, key):
+    """FunctionDef of a reference function (parsed from the stored source), or None"""
+    src = load_reference_sources().get(rel, {}).get("|".join(key))
+    if src is None:
+        return None
+    try:
+        return ast.parse(src).body[0]
+    except SyntaxError:
+        return None
+
+
 def load_reference():
     if not os.path.exists(REFERENCE):
         return None
